@@ -1608,6 +1608,40 @@ class CountTopologies(Family):
             for e in range(extra):
                 sets[rng.randrange(len(sets))].append(len(leaves) + e)
             yield {"desc": desc, "sets": [sorted(x) for x in sets], "twin": True}
+        # (0b) default sample sets (sample_sets=None): one set per row of the population table, in
+        # table order (docstring: "all samples grouped by population"), with ghost populations
+        # (no samples) in first / middle / last position and samples whose population is NULL
+        for _ in range(40 if tier == "quick" else 300):
+            desc = moves_desc(rng, vanish_p=rng.choice([0.0, 0.3]))
+            npop = rng.randrange(2, 5)
+            ghosts = set(rng.sample(range(npop), rng.choice([0, 1, 1, 1, 2]) if npop > 2 else rng.choice([0, 1])))
+            live = [q for q in range(npop) if q not in ghosts] or [0]
+            desc["populations"] = [[""] for _ in range(npop)]
+            sets = [[] for _ in range(npop)]
+            for u, nd in enumerate(desc["nodes"]):
+                if nd[0] & 1:
+                    q = -1 if rng.random() < 0.15 else rng.choice(live)
+                    nd[2] = q
+                    if q >= 0:
+                        sets[q].append(u)
+                elif rng.random() < 0.3:
+                    nd[2] = rng.randrange(npop)       # non-sample nodes may sit in a ghost population
+            yield {"desc": desc, "sets": sets, "default": True}
+        # (0c) several roots carrying the same sample-set combinations
+        for _ in range(24 if tier == "quick" else 200):
+            a = random_topology(rng, range(0, rng.randrange(2, 5)))
+            na = len(leaves_of(a))
+            b = random_topology(rng, range(na, na + rng.randrange(2, 5)))
+            desc = topology_desc(canon([a, b])[0])
+            top = len(desc["nodes"]) - 1                  # the joint root: drop it -> two roots
+            desc["edges"] = [e for e in desc["edges"] if e[2] != top]
+            nb = len(leaves_of(b))
+            nsets = rng.randrange(1, 4)
+            sets = [[] for _ in range(nsets)]
+            for u in range(na + nb):
+                if rng.random() < 0.9:
+                    sets[rng.randrange(nsets)].append(u)
+            yield {"desc": desc, "sets": [sorted(x) for x in sets], "tworoots": True}
         # (1) single-rooted trees that change by subtree moves along the sequence
         for i in range(want):
             desc = moves_desc(rng, vanish_p=0.5 if i % 2 else 0.0)
@@ -1649,11 +1683,13 @@ class CountTopologies(Family):
         for tree in ts.trees():
             lefts.append(tree.interval.left / desc["scale"])
             try:
-                per_tree.append(_counter_obs(tree.count_topologies(sets)))
+                per_tree.append(_counter_obs(tree.count_topologies() if case.get("default")
+                                             else tree.count_topologies(sets)))
             except Exception as e:
                 per_tree.append({"exc": exc_class(e) + ": " + str(e)[:80]})
         try:
-            inc = [_counter_obs(tc) for tc in ts.count_topologies(sets)]
+            inc = [_counter_obs(tc) for tc in (ts.count_topologies() if case.get("default")
+                                               else ts.count_topologies(sets))]
         except Exception as e:
             inc = {"exc": exc_class(e) + ": " + str(e)[:80]}
         return {"lefts": lefts, "per_tree": per_tree, "incremental": inc}
@@ -1717,7 +1753,7 @@ class CountTopologies(Family):
         return len(case["sets"]) >= 2 and any(len(d) > 1 for d in obs["per_tree"] if "exc" not in d)
 
     def describe(self, case, obs):
-        return {"nsets": len(case["sets"]), "ntrees": len(obs["lefts"]), "twin": bool(case.get("twin")),
+        return {"nsets": len(case["sets"]), "ntrees": len(obs["lefts"]), "twin": bool(case.get("twin")), "default_sets": bool(case.get("default")), "tworoots": bool(case.get("tworoots")),
                 "max_key": max((len(k.split(",")) for d in obs["per_tree"] for k in d if k != "exc"), default=0)}
 
     def shrink(self, case):
